@@ -202,6 +202,8 @@ RECOGNISERS = {
     'k.isdigit()': 'NONNEG', 'k.isdecimal()': 'NONNEG', 'k.isnumeric()': 'NONNEG',
     "k.lstrip('-').isdigit()": 'SIGNED', "k.lstrip('-+').isdigit()": 'SIGNED', "k.lstrip('+-').isdigit()": 'SIGNED',
 }
+TOO_WIDE = {'k.isalnum()': 'letters', 'k.isalpha()': 'letters', 'k.isascii()': 'any ASCII text', 'k.isprintable()': 'any printable text',
+            'k.isidentifier()': 'identifiers', 'len(k) > 0': 'any non-empty text', 'k': 'any non-empty text'}
 REGEX_SIGNED = (r'^-?\d+$', r'-?\d+$', r'^-?[0-9]+$', r'-?[0-9]+$', r'-?\d+\Z', r'^[-+]?\d+$', r'[-+]?\d+$', r'-?\d+', r'[-+]?\d+')
 
 
@@ -263,7 +265,18 @@ def t2_key_codec(ctx):
                         lang, rec_node = 'NONNEG', c
     if lang is None and in_try:
         lang, rec_node = 'SIGNED', call
+    wide = None
     if lang is None:
+        for ifn, br in q.enclosing_ifs(rd, call):
+            for c in (q.conjuncts(ifn.test) if br == 'body' else []):
+                t = unparse(c).replace(k + '.', 'k.').replace(k + '[', 'k[')
+                t = 'k' if t == k else t
+                if t in TOO_WIDE and all(_classify(c2, k) is None for c2 in q.conjuncts(ifn.test)):
+                    wide = (c, TOO_WIDE[t])
+    if wide is not None:
+        ctx.violated('C18.T2', rd, wide[0], 'the reader applies int() to every key accepted by `%s` (%s): an ordinary string key makes load_json raise '
+                     'instead of coming back unchanged' % (unparse(wide[0]), wide[1]))
+    elif lang is None:
         ctx.undecided('C18.T2', rd, 'integer-key recogniser not in the recogniser table', call)
     else:
         ctx.check(lang == 'SIGNED', 'C18.T2', rd, rec_node,
@@ -399,6 +412,18 @@ def t3_tsv(ctx):
             hd = r.unique_def(hdr_name) if isinstance(g.iter.args[0], ast.Name) else None
             ctx.check(hd is not None and any(isinstance(n, ast.Call) and dotted(n.func) == 'next' for n in ast.walk(hd)),
                       'C18.T3', r, g.iter, 'keys are the header row (first row of the file)', 'keys are not taken from the header row')
+            loops = [l for l in r.nodes(ast.For) if q.contains(l, dc)]
+            if loops:
+                it = loops[-1].iter
+                itx = r.expand(it)
+                whole = isinstance(itx, ast.Call) and dotted(itx.func).endswith('reader') or (isinstance(it, ast.Call) and dotted(it.func) in ('list', 'iter', 'tuple') and len(it.args) == 1)
+                part = isinstance(it, ast.Subscript) or (isinstance(it, ast.Call) and dotted(it.func) in ('itertools.islice', 'islice')) or isinstance(it, ast.BinOp)
+                if whole:
+                    ctx.holds('C18.T3', r, 'every row after the header is read (the loop iterates the csv reader)', it)
+                elif part:
+                    ctx.violated('C18.T3', r, it, 'the row loop iterates `%s`, not the csv reader itself: rows are skipped or repeated' % unparse(it))
+                else:
+                    ctx.undecided('C18.T3', r, 'iterable of the row loop not recognised', it)
     if not ok_f:
         ctx.undecided('C18.T3', r, 'row comprehension zip(header, row) not found')
     # simple writer / reader: (id, value) column order
@@ -462,6 +487,41 @@ def t3_tsv(ctx):
 ESCAPING = ('repr', 'json.dumps', 'ascii')
 
 
+def _line_template(e):
+    """Template of a formatted line with `{}` for every inserted value ('%s = %s\\n' % .., '{} = {}\\n'.format(..), f'{k} = {v}\\n',
+    k + ' = ' + v + '\\n'), or None when the expression is not one of these forms."""
+    import re as _re
+    if isinstance(e, ast.BinOp) and isinstance(e.op, ast.Mod) and isinstance(const_value(e.left), str):
+        return _re.sub(r'%[sra]', '{}', const_value(e.left))
+    if isinstance(e, ast.Call) and isinstance(e.func, ast.Attribute) and e.func.attr == 'format' and isinstance(const_value(e.func.value), str):
+        return _re.sub(r'\{[^{}]*\}', '{}', const_value(e.func.value))
+    if isinstance(e, ast.JoinedStr):
+        return ''.join(x.value if isinstance(x, ast.Constant) else '{}' for x in e.values)
+    if isinstance(e, ast.BinOp) and isinstance(e.op, ast.Add):
+        parts, stack = [], [e]
+        while stack:
+            x = stack.pop()
+            if isinstance(x, ast.BinOp) and isinstance(x.op, ast.Add):
+                stack.append(x.right); stack.append(x.left)
+            else:
+                parts.append(x)
+        if any(isinstance(const_value(x), str) for x in parts):
+            return ''.join(const_value(x) if isinstance(const_value(x), str) else '{}' for x in parts)
+    return None
+
+
+def _value_is_raw(e):
+    """The value slot of the line is filled with str(v) / %s / {} (no escaping conversion)."""
+    if isinstance(e, ast.BinOp) and isinstance(e.op, ast.Mod) and isinstance(const_value(e.left), str):
+        return const_value(e.left).rstrip().endswith('%s')
+    if isinstance(e, ast.Call) and isinstance(e.func, ast.Attribute) and e.func.attr == 'format':
+        return '!r' not in const_value(e.func.value) and '!a' not in const_value(e.func.value)
+    if isinstance(e, ast.JoinedStr):
+        fv = [x for x in e.values if isinstance(x, ast.FormattedValue)]
+        return bool(fv) and fv[-1].conversion not in (114, 97)
+    return True
+
+
 def t4_write_python(ctx):
     repo = ctx.repo
     wp = repo.func(M, 'write_python')
@@ -487,21 +547,24 @@ def t4_write_python(ctx):
         # maybe every value goes through repr
         w = [c for c in q.calls_named(wp, 'write')]
         ok = any('repr(' in unparse(wp.expand(c.args[0])) or '%r' in unparse(wp.expand(c.args[0])) for c in w if c.args)
+        raw = [c for c in w if c.args and _line_template(wp.expand(c.args[0])) is not None and
+               _value_is_raw(wp.expand(c.args[0]))]
         if ok:
             ctx.holds('C18.T4', wp, 'every value is written through repr()', w[0])
+        elif raw and not any(isinstance(n, ast.Call) and dotted(n.func) in ESCAPING for n in ast.walk(wp.node)):
+            ctx.violated('C18.T4', wp, raw[0], 'values are written with str() and nothing quotes string values: a string parameter is written '
+                         'as a bare word and the parameter file does not read back')
         else:
             ctx.undecided('C18.T4', wp, 'string branch of write_python not recognised')
     # line format `key = value\n`
     w = [c for c in q.calls_named(wp, 'write') if c.args]
-    fmt_ok = False
-    for c in w:
-        e = c.args[0]
-        if isinstance(e, ast.BinOp) and isinstance(e.op, ast.Mod) and isinstance(const_value(e.left), str):
-            fmt_ok = const_value(e.left).replace(' ', '') in ('%s=%s\n', '%s=%r\n')
-        if isinstance(e, ast.JoinedStr):
-            lit = ''.join(x.value for x in e.values if isinstance(x, ast.Constant))
-            fmt_ok = lit.replace(' ', '') == '=\n'
-    ctx.check(fmt_ok, 'C18.T4', wp, w[0] if w else wp.node.name, "one `key = value` assignment per line", 'lines are not of the form `key = value\\n`')
+    tpls = [(_line_template(c.args[0]), c) for c in w]
+    known = [(t, c) for t, c in tpls if t is not None]
+    if not known:
+        ctx.undecided('C18.T4', wp, 'line template of write_python not recognised', w[0] if w else None)
+    else:
+        t, c = known[0]
+        ctx.check(t.replace(' ', '') == '{}={}\n', 'C18.T4', wp, c, "one `key = value` assignment per line", 'lines are not of the form `key = value\\n` (template %r)' % t)
     # reader lower-cases keys: writer/reader agree only for lower-case keys (recorded, not a violation)
     low = any(isinstance(n, ast.Call) and q.method_name(n) == 'lower' for n in ast.walk(rp.node))
     ctx.holds('C18.T4', rp, 'read_python executes the file and returns its variables (keys lower-cased: %s)' % low, rp.node.name, nontrivial=False)
